@@ -10,6 +10,10 @@ from ..core import CTX, attempt, held, violated, undefined, same_array, short
 from .. import gen, contracts
 
 PROP = "C11"
+LEVEL_TEXT = 'Histories (construction + 1..40 operations, derived tables take part) checked step by step against a dict; after every step all keys are read back and a fixed universe of keys/non-keys is probed; caller arrays are checked for write-through and overwritten. Exploration over histories.'
+LEVEL_NOTE = "trusts numpy 2.x, CPython (copy.copy, slice semantics, big ints) and the reference model in rtmon/props/c11.py; decides the executions it produces, nothing more"
+TECHNIQUE = 'runtime monitoring: history checking against a sequential dict model with unique assigned values; key-set / read-back tap after every step'
+DESIGN_REF = "DESIGN.md sections 0, 5 (C11), 7"
 RULE = ("case = history: (unique keys, key dtype, modulus, initial values: per-key array | scalar, value dtype, list of operations with explicit arguments); "
         "model = dict; distinct = hash of the history; non-trivial = >= 2 keys and >= 2 operations")
 ASSUMPTIONS = ["the modulus is representable in the key dtype", "a single-key lookup of an absent key is unspecified", "query arrays are typed (same or wider integer dtype)",
